@@ -40,12 +40,24 @@ sys.path.insert(0, HERE)
 import props  # noqa: E402
 
 
+# quick / medium runs: no single harness or driver invocation may take longer than this (an implementation
+# that never returns on a path the harness does not supervise must not stall the check for hours)
+TIMEOUT_CAP = {"s": None}
+
+
 def sh(cmd, cwd=None, timeout=None, env=None, input_bytes=None):
     e = dict(os.environ)
     e["CARGO_NET_OFFLINE"] = "true"
     if env:
         e.update(env)
-    p = subprocess.run(cmd, cwd=cwd, stdout=subprocess.PIPE, stderr=subprocess.STDOUT, timeout=timeout, env=e, input=input_bytes)
+    cap = TIMEOUT_CAP["s"]
+    if cap is not None and cmd and os.path.basename(str(cmd[0])) in ("mbharness", "mbdriver"):
+        timeout = cap if timeout is None else min(timeout, cap)
+    try:
+        p = subprocess.run(cmd, cwd=cwd, stdout=subprocess.PIPE, stderr=subprocess.STDOUT, timeout=timeout, env=e, input=input_bytes)
+    except subprocess.TimeoutExpired as ex:
+        out = (ex.stdout or b"").decode("utf-8", "replace")
+        return 124, out + f"\n[{os.path.basename(str(cmd[0]))} did not finish within {timeout} s and was stopped]\n"
     return p.returncode, p.stdout.decode("utf-8", "replace")
 
 
@@ -271,6 +283,8 @@ def main():
     a = ap.parse_args()
     pid = a.pid
     tier = a.tier if a.tier in ("quick", "thorough") else "quick"
+    if tier == "quick":
+        TIMEOUT_CAP["s"] = int(os.environ.get("VERIF_STEP_TIMEOUT_S", "900") or 900)
     seed = int(os.environ.get("VERIF_SEED", "20260929") or 20260929)
     spec = props.PROPS[pid]
     t0 = time.time()
